@@ -237,7 +237,8 @@ def run(ctx):
     try:
         extra = [G.base_case(path=[["a b"], ["c%20d"]], query=[(["k k"], ["v%20v"])], fragment=["f f"]), G.base_case(user=["u u"], password=["p%20p"]),
                  G.base_case(host="télérama.fr", path=[["é"], ["%C3%A9"]]), G.base_case(scheme="https://", host="xn--bcher-kva.example", path=[["a"], ["b"]], trailing=True),
-                 G.base_case(scheme="", host="lemonde.fr", path=[["x"], ["y"]]), G.base_case(path=[["%7Efoo"], ["!"], ["%21"]]), G.base_case(path=[["a"], ["b"]], query=[(["q"], ["%2B+"])])]
+                 G.base_case(scheme="", host="lemonde.fr", path=[["x"], ["y"]]), G.base_case(host="bücher.télérama.fr", path=[["a"]]), G.base_case(host="xn--e1afmkfd.рф"), G.base_case(host="пример.xn--p1ai", path=[["x"]]),
+                 G.base_case(host="xn--mnchen-3ya.de"), G.base_case(path=[["%7Efoo"], ["!"], ["%21"]]), G.base_case(path=[["a"], ["b"]], query=[(["q"], ["%2B+"])])]
         bases = C01_DIRECTED + extra
         if ctx.shard == 0:
             for b in bases:
